@@ -17,7 +17,8 @@ RULE = ("Valid EML trees, mutated valid trees, fixture subtrees and arbitrary tr
         "<, >, &), and a Hypothesis-drawn sequence (with repetition) of 3-12 read-only operations: validation (node/tree, "
         "both modes), evaluation, JSON export (both codecs, both indents), XML export (both exporters, with/without "
         "namespaces), graph rendering (both), every find_* query, child_index, get_ancestry, list_attributes, "
-        "attribute_value, child_insert_index, is_allowed_child, is_equal against a copy made beforehand, str/repr.  "
+        "attribute_value, child_insert_index (fresh candidates and candidates already attached: own children, the parent, "
+        "the root), is_allowed_child, is_equal against a copy made beforehand, str/repr.  "
         "Oracle: a deep snapshot (every field incl. dict order, child identity/order, parent links, namespace-dict "
         "sharing, node registry) is identical before and after every call, and a call repeated later returns the same "
         "value.  Non-trivial: a tree with a node whose content contains <, > or &, or >= 5 nodes and >= 4 operations.")
